@@ -379,6 +379,46 @@ pub fn to_bytes_alt(v: &Value) -> Vec<u8> {
     serde_json::to_vec_pretty(v).unwrap()
 }
 
+/// A third spelling: every character of every string (member names too) written as a \uXXXX
+/// escape.  Any JSON parser reads the same value; a parser that can only borrow strings from its
+/// input cannot.
+pub fn to_bytes_escaped(v: &Value) -> Vec<u8> {
+    fn s(out: &mut String, x: &str) {
+        out.push('"');
+        for u in x.encode_utf16() {
+            out.push_str(&format!("\\u{u:04x}"));
+        }
+        out.push('"');
+    }
+    fn w(out: &mut String, v: &Value) {
+        match v {
+            Value::String(x) => s(out, x),
+            Value::Array(a) => {
+                out.push('[');
+                for (i, e) in a.iter().enumerate() {
+                    if i > 0 { out.push(','); }
+                    w(out, e);
+                }
+                out.push(']');
+            }
+            Value::Object(m) => {
+                out.push('{');
+                for (i, (k, e)) in m.iter().enumerate() {
+                    if i > 0 { out.push(','); }
+                    s(out, k);
+                    out.push(':');
+                    w(out, e);
+                }
+                out.push('}');
+            }
+            other => out.push_str(&other.to_string()),
+        }
+    }
+    let mut out = String::new();
+    w(&mut out, v);
+    out.into_bytes()
+}
+
 /// Classify a tough error by its variant name (the first identifier of the Debug form) and, for
 /// transport errors, by the recognisable cause.
 pub fn classify(e: &tough::error::Error) -> String {
